@@ -6,6 +6,8 @@ C15.load     PT_LOAD: area at p_vaddr; equal-size variant holds segment_data(seg
 C15.round    the zero area's length L(p_memsz) satisfies p_memsz <= L <= next page boundary, for every residue of p_memsz
              modulo the page size and representative page counts admitted by the path's own guards (a longer area
              reaches into the page of the next segment, a shorter one loses the bss tail)
+C15.others   a program header that is not PT_LOAD never changes the permissions or contents of an area it did not create
+             itself (its p_vaddr may coincide with a loaded segment's: PT_GNU_RELRO, PT_TLS, PT_NOTE ...)
 C15.perm     mem_prot(p_vaddr, mask) with mask = R/W/X permutation of the segment's p_flags (per flag class)
 C15.symbols  symbol_table[st_value] = strtab.get(st_name); undefined symbols are skipped
 Declined: byte-for-byte equality of the image for all files; the p_vaddr == 0 skip; the rounding special case.
@@ -178,6 +180,31 @@ def run(ctx):
                         pbad = pbad or "p_flags X/W/R=%d%d%d -> mask %d, expected %d" % (bits[0], bits[1], bits[2], m, want)
             if creates and not failed and not prots:
                 pbad = pbad or "a loaded segment never gets its permissions"
+    # ---- non-loadable headers: per program header visited, the comparisons of its p_type decide which kind it is
+    obad = None
+    n_other = 0
+    for o in outs:
+        if o.kind != "return":
+            continue
+        marks = [(i, e) for i, e in enumerate(o.path.events) if e[0] == "next" and e[1] == "seg" and e[2] == "some"]
+        for j, (i, e) in enumerate(marks):
+            c0 = e[3] if len(e) > 3 else 0
+            i1 = marks[j + 1][0] if j + 1 < len(marks) else len(o.path.events)
+            c1 = marks[j + 1][1][3] if j + 1 < len(marks) and len(marks[j + 1][1]) > 3 else len(o.path.conds)
+            conds = o.path.conds[c0:c1]
+            ptype = None
+            for c in conds:
+                if seg_field(c[0], "p_type") and c[1] == "==":
+                    ptype = c[2]
+            if ptype is None or ptype == PT_LOAD:
+                continue
+            n_other += 1
+            evs = o.path.events[i:i1]
+            created = [U.strip(x[1]) for x in evs if x[0] in ("init_area", "init_zero")]
+            for x in evs:
+                if x[0] in ("prot", "write_bytes") and U.strip(x[1]) not in created:
+                    obad = obad or "a program header of type %#x %s at its p_vaddr without having created that area" % (
+                        ptype, "changes the permissions" if x[0] == "prot" else "overwrites bytes")
     if n_eq == 0 or n_zero == 0:
         lbad = lbad or "PT_LOAD variants missing (equal=%d zero=%d)" % (n_eq, n_zero)
     if n_perm == 0:
@@ -187,6 +214,12 @@ def run(ctx):
         ck.violation("C15.round", "segment=PT_LOAD", rbad, where=where, what="area length is not p_memsz rounded up to the page size")
     else:
         ck.ok("C15.round", "segment=PT_LOAD", n_round)
+    ck.cov["non_load_headers_seen"] = n_other
+    if obad:
+        ck.violation("C15.others", "segment=other", obad, where=where,
+                     what="a loaded segment's permissions or bytes no longer equal its own header's after another header is processed")
+    else:
+        ck.ok("C15.others", "segment=other", max(n_other, 1))
     for rule, bad in (("C15.load", lbad), ("C15.perm", pbad)):
         if bad:
             ck.violation(rule, "segment=PT_LOAD", bad, where=where, what="loaded image differs from the file's segment")
